@@ -280,19 +280,19 @@ structure Variant where
   /-- D17 repair (commit 33e7bf8): in the fallback branch the no-op provisioner is not accepted
       when `certificateRecordsProvisioner(cert)` (the database names a provisioner) -/
   noNoopWhenDbNames : Bool
-  /-- D9-RA repair (not applied): the `Uninitialized` test looks through `wrappedProvisioner` -/
+  /-- D9-RA repair (commit df3f6ee): the `Uninitialized` test looks through `*wrappedProvisioner` -/
   unwrapUninit : Bool
   deriving DecidableEq, Repr
 
 /-- the tree before the two `fix:` commits -/
 def asCodedBefore : Variant := ⟨false, false, false⟩
-/-- /repo HEAD after c93b602 (D9) and 33e7bf8 (D17) -/
+/-- the tree after c93b602 (D9) and 33e7bf8 (D17), before df3f6ee -/
 def fixedD9D17 : Variant := ⟨true, true, false⟩
-/-- all three repairs -/
+/-- /repo HEAD: all three repairs (c93b602, 33e7bf8, df3f6ee) -/
 def repaired : Variant := ⟨true, true, true⟩
 
 /-- THE ONE-LINE SWITCH: which variant the driver (and so the correspondence check) runs. -/
-def current : Variant := fixedD9D17
+def current : Variant := repaired
 
 inductive Reason where
   | revocationCheckFailed | revoked | provisionerNotFound | uninitialized
